@@ -38,7 +38,8 @@ RULE = (
     "include/render/extends names against a recording loader, with, macro/call, "
     "translate), names given as strings (macro, block, cycle group, increment, alias), "
     "template-string text parts and literals inside ${...}, {% liquid %} line statements, "
-    "ternaries, array literals, lambdas, and a few of them again under auto_escape=True "
+    "ternaries, array literals, lambdas, strings given to for limit:/offset: "
+    "(every spelling must behave like the minimal spelling), and a few of them again under auto_escape=True "
     "(decided by comparison / lookup).  Every 7th evaluation renders through render_async.  "
     "A failing case is delta-debugged over its characters; the mechanism key is "
     "<site>:<spelling features of the minimal literal> (or <site>:not-unescaped when the "
@@ -1423,6 +1424,74 @@ def _json(h: Harness, spec: dict[str, Any]) -> None:
 
 
 # ---------------------------------------------------------------------------
+# strings given to the `for` tag's limit:/offset: arguments
+# ---------------------------------------------------------------------------
+# What the tag does with the string ("continue" is the documented special value of offset:,
+# numeric strings are coerced) is tag semantics, not literal denotation.  What the property
+# does demand is that every spelling of the same string behaves like its minimal spelling.
+
+FOR_ARG_SITES = {
+    "for-limit": ("{% for x in xs limit: «L» %}{{ x }}{% endfor %}", ("2", "0", "12")),
+    "for-offset": ("{% for x in xs offset: «L» %}{{ x }}{% endfor %}", ("4", "0", "continue")),
+    "for-offset-continue": (
+        "{% for x in xs limit: 2 %}{{ x }}{% endfor %}|{% for x in xs offset: «L» %}{{ x }}{% endfor %}",
+        ("continue",)),
+}
+
+
+def eval_for_arg(h: Harness, name: str, pieces: list[Piece], quote: str):
+    tmpl, _ = FOR_ARG_SITES[name]
+    s = "".join(c for c, _m in pieces)
+    data = {"xs": [1, 2, 3, 4, 5, 6], "g": 1}
+    lit = quote + body_of(normalise(pieces)) + quote
+    ref_lit = quote + body_of(minimal_pieces(s, quote)) + quote
+    o = h.render(tmpl.replace("«L»", lit), {}, data)
+    ref = h.render(tmpl.replace("«L»", ref_lit), {}, data)
+    same = (o.kind, o.out) == (ref.kind, ref.out)
+    return same, o, ref, lit, ref_lit
+
+
+def _for_args(h: Harness, rng: random.Random) -> None:
+    import itertools
+
+    ctx = h.ctx
+    for name, (_tmpl, targets) in FOR_ARG_SITES.items():
+        for s in targets:
+            for quote in QUOTES:
+                per_char = [modes_for(ch, quote) for ch in s]
+                if len(s) <= 2:
+                    spellings = [list(zip(s, ms)) for ms in itertools.product(*per_char)]
+                else:
+                    spellings = [maximal_pieces(s, quote), maximal_pieces(s, quote, upper=True),
+                                 alternating_pieces(s, quote, 0), alternating_pieces(s, quote, 1)]
+                    for i in range(len(s)):  # one escaped character at a time
+                        for m in ("u", "U"):
+                            sp = minimal_pieces(s, quote)
+                            sp[i] = (s[i], m)
+                            spellings.append(sp)
+                    spellings += [random_pieces(s, quote, rng) for _ in range(6)]
+                for sp in spellings:
+                    same, o, ref, lit, ref_lit = eval_for_arg(h, name, sp, quote)
+                    ctx.ev()
+                    ctx.count("string_evaluations")
+                    ctx.count("for_arg_evaluations")
+                    ctx.seen("sites", name)
+                    if needs_or_has_escape(sp):
+                        mark_nontrivial(ctx, "s", name, lit)
+                    if same:
+                        continue
+                    feats = "+".join(sorted({feature(c, m) for c, m in sp if m != "raw"})) or "raw"
+                    ctx.violation(
+                        f"{name}:{feats}",
+                        f"site {name}: {lit} and {ref_lit} spell the same string but behave "
+                        f"differently: {o.kind} {o.out!r} vs {ref.kind} {ref.out!r}",
+                        {"kind": "for-arg", "site": name, "quote": quote,
+                         "pieces": [[c, m] for c, m in sp], "literal": lit,
+                         "reference_literal": ref_lit, "observed": _jsonable(o.out),
+                         "reference": _jsonable(ref.out)})
+
+
+# ---------------------------------------------------------------------------
 # invalid spellings (informational only; the property does not speak about them)
 # ---------------------------------------------------------------------------
 
@@ -1495,6 +1564,7 @@ def floors(tier: str) -> dict[str, int]:
         "random_strings": 7_000 if q else 600_000,
         "long_mantissa_literals": 2_000 if q else 20_000,
         "max:mantissa_digits": 60,
+        "for_arg_evaluations": 100,
         "limit_probes_within": 250,
         "limit_probes_refused_with_LiquidError": 300,
     }
@@ -1507,6 +1577,7 @@ def run_shard(spec: dict[str, Any], ctx: Ctx) -> None:
         sweep_codepoints(h, list(range(spec["lo"], spec["hi"])), all_sites=True, embeds=(0, 1, 2))
         if spec["i"] == 0:
             _invalid(h)
+            _for_args(h, random.Random(f"{spec['seed']}:forargs"))
     elif kind == "bmp":
         cps = [cp for cp in range(spec["lo"], spec["hi"], spec["stride"])
                if not 0xD800 <= cp <= 0xDFFF]
@@ -1579,6 +1650,13 @@ def replay(wit: dict[str, Any], ctx: Ctx) -> None:
         print(f"  outcome {o.kind} rendered={o.out!r} decoded={o.observed!r} {o.detail}")
         if o.kind != "ok":
             check_json(h, wit["variant"], wit["value"])
+    elif kind == "for-arg":
+        pieces = [(c, m) for c, m in wit["pieces"]]
+        same, o, ref, lit, ref_lit = eval_for_arg(h, wit["site"], pieces, wit["quote"])
+        print(f"replay C20 for-arg site={wit['site']} {lit} -> {o.kind} {o.out!r}; "
+              f"{ref_lit} -> {ref.kind} {ref.out!r}")
+        if not same:
+            ctx.violation(f"{wit['site']}:replayed", "spellings of one string behave differently", wit)
     elif kind == "limit":
         print(f"replay C20 limit probe site={wit['site']} zone={wit['zone']} "
               f"text={wit['text'][:40]}...({len(wit['text'])} chars)")
